@@ -28,7 +28,7 @@ OUTSIDE = ["the written HTML/LaTeX output", "Sphinx-only directives (literalincl
 STUBS = ["read observation: wrappers around Path.read_text / open that record accesses to the sentinel files"]
 NONTRIVIAL_RULE = "paths with at least one raw carrier and raw disabled, or one file reader and file insertion disabled"
 
-RAW = ["html-block", "html-inline", "html-inline-nested", "raw-role", "raw-directive", "evalrst-raw", "hardbreak", "strike", "two-html-blocks"]
+RAW = ["html-block", "html-inline", "html-inline-nested", "raw-role", "raw-directive", "evalrst-raw", "hardbreak", "strike", "two-html-blocks", "html-inline-checkbox", "tasklist"]
 FILES = ["include", "include-literal", "include-code", "include-std", "evalrst-include", "csv-file", "raw-file"]
 
 
@@ -48,6 +48,11 @@ def construct(kind, n, d):
         return ["<div>%s%da</div>" % (S, n), "", "<div>%s%db</div>" % (S, n)]
     if kind == "html-inline":
         return ["P%d <b>%s%d</b> end" % (n, S, n)]
+    if kind == "html-inline-checkbox":
+        # author-written HTML that looks like the checkbox the tasklist extension generates
+        return ["P%d <input class=\"task-list-item-checkbox\" autofocus onfocus=\"%s%d\"> end" % (n, S, n)]
+    if kind == "tasklist":
+        return ["- [ ] todo %d" % n, "- [x] done %d" % n]
     if kind == "html-inline-nested":
         return ["P%d <span><a href='%s%d'>x</a></span><br> end" % (n, S, n)]
     if kind == "raw-role":
@@ -124,7 +129,7 @@ def run_doc(kinds, raw_enabled, file_ins, real=False, suppress=()):
         text = "\n".join(lines) + "\n"
         # the standard-include root: make docutils' "<...>" form resolve inside d is not needed: absolute path is given
         with ReadWatch(d) as w:
-            doc, warn = CR.publish(text, {"raw_enabled": raw_enabled, "file_insertion_enabled": file_ins, "myst_enable_extensions": ["strikethrough"], "report_level": 2, "myst_suppress_warnings": list(suppress)}, real=real,
+            doc, warn = CR.publish(text, {"raw_enabled": raw_enabled, "file_insertion_enabled": file_ins, "myst_enable_extensions": ["strikethrough", "tasklist"], "report_level": 2, "myst_suppress_warnings": list(suppress)}, real=real,
                                    source=os.path.join(d, "src.md"))
         return doc, warn, list(w.reads), text
 
@@ -161,7 +166,7 @@ def check(doc, warn, reads, kinds, raw_enabled, file_ins):
         # one warning per removed raw node: count the raw nodes produced with raw enabled by the MyST-side constructs
         exp_removed = 0
         for k in kinds:
-            exp_removed += {"html-block": 1, "two-html-blocks": 2, "html-inline": 2, "html-inline-nested": 5, "hardbreak": 2, "strike": 2}.get(k, 0)
+            exp_removed += {"html-block": 1, "two-html-blocks": 2, "html-inline": 2, "html-inline-nested": 5, "hardbreak": 2, "strike": 2, "html-inline-checkbox": 1, "tasklist": 2}.get(k, 0)
         n = warn.count("Raw content disabled")
         nodes_n = len([m for m in doc.findall(nodes.system_message) if "Raw content disabled" in m.astext()])
         if nodes_n != exp_removed:
